@@ -466,8 +466,8 @@ def centroid_sources(data, xpos, ypos, box_size=11, footprint=None, mask=None,
                          'keyword.')
 
     # drop any **kwargs not supported by the centroid_func
-    centroid_kwargs = {key: val for key, val in kwargs.items()
-                       if key in spec.parameters}
+    func_kwargs = {key: val for key, val in kwargs.items()
+                   if key in spec.parameters}
 
     xcentroids = []
     ycentroids = []
@@ -492,6 +492,9 @@ def centroid_sources(data, xpos, ypos, box_size=11, footprint=None, mask=None,
                              'mask and footprint. Also note that footprint '
                              'must be a small, local footprint.')
 
+        # start from the input keywords for each source; the values
+        # below are specific to this cutout
+        centroid_kwargs = func_kwargs.copy()
         centroid_kwargs.update({'mask': mask_cutout})
 
         error = centroid_kwargs.get('error')
